@@ -1,6 +1,540 @@
-//! Monitor for C17 (see /verif/DESIGN.md §5 C17).
-use vcommon::Args;
+//! Monitor for C17 — "A newly created market starts from the documented default configuration".
+//!
+//! Observed: `Market` accounts created (1) by the real `initialize_market` instruction in hostsvm, for
+//! random (index, long, short) token triples (pure: long == short, and impure), names, `enable` flags,
+//! creation times, with and without other markets holding liquidity; (2) directly by
+//! `Market::default()` + `Market::init(..)` executed inside the runtime context (stubbed clock).
+//!
+//! Oracle: an independent hand-written table `MarketConfigKey -> documented DEFAULT_* constant`, chosen
+//! by the *name / doc comment* of the key and of the constant (never by what `MarketConfig::init`
+//! assigns); the same for the config flags; pool purity pattern from the property text; amounts zero.
+use crate::world::{self, exchange::load, six, user::in_runtime, World, STORE_PID, UNIT};
+use anchor_lang::prelude::Pubkey;
+use anchor_lang::system_program;
+use anchor_spl::token::spl_token;
+use gmsol_model::{Balance, Delta, Pool as _, PoolKind};
+use gmsol_store::{
+    accounts as sa, constants as k, instruction as si,
+    states::market::config::{MarketConfigFlag, MarketConfigKey},
+    states::Market,
+};
+use hostsvm::{key, token};
+use strum::IntoEnumIterator;
+use vcommon::{json, monitor::run_shards, Args, Monitor, Rng};
 
-pub fn run(_args: &Args) -> Option<i32> {
-    None
+/// Documented default of a config key: `(value, constant name, how the constant was chosen)`.
+/// `None`: no documented constant could be associated by name (reported as uncovered).
+fn documented_default(key: MarketConfigKey) -> Option<(u128, &'static str, &'static str)> {
+    use MarketConfigKey as K;
+    const BY_NAME: &str = "same name";
+    const RECEIVER: &str = "the only documented receiver-factor default (\"Default receiver factor\")";
+    const CLOSED: &str = "no constant of its own: the documented default of the same setting without the `market closed` qualifier";
+    Some(match key {
+        K::SwapImpactExponent => (k::DEFAULT_SWAP_IMPACT_EXPONENT, "DEFAULT_SWAP_IMPACT_EXPONENT", BY_NAME),
+        K::SwapImpactPositiveFactor => (k::DEFAULT_SWAP_IMPACT_POSITIVE_FACTOR, "DEFAULT_SWAP_IMPACT_POSITIVE_FACTOR", BY_NAME),
+        K::SwapImpactNegativeFactor => (k::DEFAULT_SWAP_IMPACT_NEGATIVE_FACTOR, "DEFAULT_SWAP_IMPACT_NEGATIVE_FACTOR", BY_NAME),
+        K::SwapFeeReceiverFactor => (k::DEFAULT_RECEIVER_FACTOR, "DEFAULT_RECEIVER_FACTOR", RECEIVER),
+        K::SwapFeeFactorForPositiveImpact => (k::DEFAULT_SWAP_FEE_FACTOR_FOR_POSITIVE_IMPACT, "DEFAULT_SWAP_FEE_FACTOR_FOR_POSITIVE_IMPACT", BY_NAME),
+        K::SwapFeeFactorForNegativeImpact => (k::DEFAULT_SWAP_FEE_FACTOR_FOR_NEGATIVE_IMPACT, "DEFAULT_SWAP_FEE_FACTOR_FOR_NEGATIVE_IMPACT", BY_NAME),
+        K::MinPositionSizeUsd => (k::DEFAULT_MIN_POSITION_SIZE_USD, "DEFAULT_MIN_POSITION_SIZE_USD", BY_NAME),
+        K::MinCollateralValue => (k::DEFAULT_MIN_COLLATERAL_VALUE, "DEFAULT_MIN_COLLATERAL_VALUE", BY_NAME),
+        K::MinCollateralFactor => (k::DEFAULT_MIN_COLLATERAL_FACTOR, "DEFAULT_MIN_COLLATERAL_FACTOR", BY_NAME),
+        K::MinCollateralFactorForOpenInterestMultiplierForLong => (
+            k::DEFAULT_MIN_COLLATERAL_FACTOR_FOR_OPEN_INTEREST_FOR_LONG,
+            "DEFAULT_MIN_COLLATERAL_FACTOR_FOR_OPEN_INTEREST_FOR_LONG",
+            "doc comment \"min collateral factor for open interest for long\"",
+        ),
+        K::MinCollateralFactorForOpenInterestMultiplierForShort => (
+            k::DEFAULT_MIN_COLLATERAL_FACTOR_FOR_OPEN_INTEREST_FOR_SHORT,
+            "DEFAULT_MIN_COLLATERAL_FACTOR_FOR_OPEN_INTEREST_FOR_SHORT",
+            "doc comment \"min collateral factor for open interest for short\"",
+        ),
+        K::MaxPositivePositionImpactFactor => (k::DEFAULT_MAX_POSITIVE_POSITION_IMPACT_FACTOR, "DEFAULT_MAX_POSITIVE_POSITION_IMPACT_FACTOR", BY_NAME),
+        K::MaxNegativePositionImpactFactor => (k::DEFAULT_MAX_NEGATIVE_POSITION_IMPACT_FACTOR, "DEFAULT_MAX_NEGATIVE_POSITION_IMPACT_FACTOR", BY_NAME),
+        K::MaxPositionImpactFactorForLiquidations => (k::DEFAULT_MAX_POSITION_IMPACT_FACTOR_FOR_LIQUIDATIONS, "DEFAULT_MAX_POSITION_IMPACT_FACTOR_FOR_LIQUIDATIONS", BY_NAME),
+        K::PositionImpactExponent => (k::DEFAULT_POSITION_IMPACT_EXPONENT, "DEFAULT_POSITION_IMPACT_EXPONENT", BY_NAME),
+        K::PositionImpactPositiveFactor => (k::DEFAULT_POSITION_IMPACT_POSITIVE_FACTOR, "DEFAULT_POSITION_IMPACT_POSITIVE_FACTOR", BY_NAME),
+        K::PositionImpactNegativeFactor => (k::DEFAULT_POSITION_IMPACT_NEGATIVE_FACTOR, "DEFAULT_POSITION_IMPACT_NEGATIVE_FACTOR", BY_NAME),
+        K::OrderFeeReceiverFactor => (k::DEFAULT_RECEIVER_FACTOR, "DEFAULT_RECEIVER_FACTOR", RECEIVER),
+        K::OrderFeeFactorForPositiveImpact => (k::DEFAULT_ORDER_FEE_FACTOR_FOR_POSITIVE_IMPACT, "DEFAULT_ORDER_FEE_FACTOR_FOR_POSITIVE_IMPACT", BY_NAME),
+        K::OrderFeeFactorForNegativeImpact => (k::DEFAULT_ORDER_FEE_FACTOR_FOR_NEGATIVE_IMPACT, "DEFAULT_ORDER_FEE_FACTOR_FOR_NEGATIVE_IMPACT", BY_NAME),
+        K::LiquidationFeeReceiverFactor => (k::DEFAULT_RECEIVER_FACTOR, "DEFAULT_RECEIVER_FACTOR", RECEIVER),
+        K::LiquidationFeeFactor => (k::DEFAULT_LIQUIDATION_FEE_FACTOR, "DEFAULT_LIQUIDATION_FEE_FACTOR", BY_NAME),
+        K::PositionImpactDistributeFactor => (k::DEFAULT_POSITION_IMPACT_DISTRIBUTE_FACTOR, "DEFAULT_POSITION_IMPACT_DISTRIBUTE_FACTOR", BY_NAME),
+        K::MinPositionImpactPoolAmount => (k::DEFAULT_MIN_POSITION_IMPACT_POOL_AMOUNT, "DEFAULT_MIN_POSITION_IMPACT_POOL_AMOUNT", BY_NAME),
+        K::BorrowingFeeReceiverFactor => (k::DEFAULT_RECEIVER_FACTOR, "DEFAULT_RECEIVER_FACTOR", RECEIVER),
+        K::BorrowingFeeFactorForLong => (k::DEFAULT_BORROWING_FEE_FACTOR_FOR_LONG, "DEFAULT_BORROWING_FEE_FACTOR_FOR_LONG", BY_NAME),
+        K::BorrowingFeeFactorForShort => (k::DEFAULT_BORROWING_FEE_FACTOR_FOR_SHORT, "DEFAULT_BORROWING_FEE_FACTOR_FOR_SHORT", BY_NAME),
+        K::BorrowingFeeExponentForLong => (k::DEFAULT_BORROWING_FEE_EXPONENT_FOR_LONG, "DEFAULT_BORROWING_FEE_EXPONENT_FOR_LONG", BY_NAME),
+        K::BorrowingFeeExponentForShort => (k::DEFAULT_BORROWING_FEE_EXPONENT_FOR_SHORT, "DEFAULT_BORROWING_FEE_EXPONENT_FOR_SHORT", BY_NAME),
+        K::BorrowingFeeOptimalUsageFactorForLong => (k::DEFAULT_BORROWING_FEE_OPTIMAL_USAGE_FACTOR_FOR_LONG, "DEFAULT_BORROWING_FEE_OPTIMAL_USAGE_FACTOR_FOR_LONG", BY_NAME),
+        K::BorrowingFeeOptimalUsageFactorForShort => (k::DEFAULT_BORROWING_FEE_OPTIMAL_USAGE_FACTOR_FOR_SHORT, "DEFAULT_BORROWING_FEE_OPTIMAL_USAGE_FACTOR_FOR_SHORT", BY_NAME),
+        K::BorrowingFeeBaseFactorForLong => (k::DEFAULT_BORROWING_FEE_BASE_FACTOR_FOR_LONG, "DEFAULT_BORROWING_FEE_BASE_FACTOR_FOR_LONG", BY_NAME),
+        K::BorrowingFeeBaseFactorForShort => (k::DEFAULT_BORROWING_FEE_BASE_FACTOR_FOR_SHORT, "DEFAULT_BORROWING_FEE_BASE_FACTOR_FOR_SHORT", BY_NAME),
+        K::BorrowingFeeAboveOptimalUsageFactorForLong => (k::DEFAULT_BORROWING_FEE_ABOVE_OPTIMAL_USAGE_FACTOR_FOR_LONG, "DEFAULT_BORROWING_FEE_ABOVE_OPTIMAL_USAGE_FACTOR_FOR_LONG", BY_NAME),
+        K::BorrowingFeeAboveOptimalUsageFactorForShort => (k::DEFAULT_BORROWING_FEE_ABOVE_OPTIMAL_USAGE_FACTOR_FOR_SHORT, "DEFAULT_BORROWING_FEE_ABOVE_OPTIMAL_USAGE_FACTOR_FOR_SHORT", BY_NAME),
+        K::FundingFeeExponent => (k::DEFAULT_FUNDING_FEE_EXPONENT, "DEFAULT_FUNDING_FEE_EXPONENT", BY_NAME),
+        K::FundingFeeFactor => (k::DEFAULT_FUNDING_FEE_FACTOR, "DEFAULT_FUNDING_FEE_FACTOR", BY_NAME),
+        K::FundingFeeMaxFactorPerSecond => (k::DEFAULT_FUNDING_FEE_MAX_FACTOR_PER_SECOND, "DEFAULT_FUNDING_FEE_MAX_FACTOR_PER_SECOND", BY_NAME),
+        K::FundingFeeMinFactorPerSecond => (k::DEFAULT_FUNDING_FEE_MIN_FACTOR_PER_SECOND, "DEFAULT_FUNDING_FEE_MIN_FACTOR_PER_SECOND", BY_NAME),
+        K::FundingFeeIncreaseFactorPerSecond => (k::DEFAULT_FUNDING_FEE_INCREASE_FACTOR_PER_SECOND, "DEFAULT_FUNDING_FEE_INCREASE_FACTOR_PER_SECOND", BY_NAME),
+        K::FundingFeeDecreaseFactorPerSecond => (k::DEFAULT_FUNDING_FEE_DECREASE_FACTOR_PER_SECOND, "DEFAULT_FUNDING_FEE_DECREASE_FACTOR_PER_SECOND", BY_NAME),
+        K::FundingFeeThresholdForStableFunding => (k::DEFAULT_FUNDING_FEE_THRESHOLD_FOR_STABLE_FUNDING, "DEFAULT_FUNDING_FEE_THRESHOLD_FOR_STABLE_FUNDING", BY_NAME),
+        K::FundingFeeThresholdForDecreaseFunding => (k::DEFAULT_FUNDING_FEE_THRESHOLD_FOR_DECREASE_FUNDING, "DEFAULT_FUNDING_FEE_THRESHOLD_FOR_DECREASE_FUNDING", BY_NAME),
+        K::ReserveFactor => (k::DEFAULT_RESERVE_FACTOR, "DEFAULT_RESERVE_FACTOR", BY_NAME),
+        K::OpenInterestReserveFactor => (k::DEFAULT_OPEN_INTEREST_RESERVE_FACTOR, "DEFAULT_OPEN_INTEREST_RESERVE_FACTOR", BY_NAME),
+        K::MaxPnlFactorForLongDeposit => (k::DEFAULT_MAX_PNL_FACTOR_FOR_LONG_DEPOSIT, "DEFAULT_MAX_PNL_FACTOR_FOR_LONG_DEPOSIT", BY_NAME),
+        K::MaxPnlFactorForShortDeposit => (k::DEFAULT_MAX_PNL_FACTOR_FOR_SHORT_DEPOSIT, "DEFAULT_MAX_PNL_FACTOR_FOR_SHORT_DEPOSIT", BY_NAME),
+        K::MaxPnlFactorForLongWithdrawal => (k::DEFAULT_MAX_PNL_FACTOR_FOR_LONG_WITHDRAWAL, "DEFAULT_MAX_PNL_FACTOR_FOR_LONG_WITHDRAWAL", BY_NAME),
+        K::MaxPnlFactorForShortWithdrawal => (k::DEFAULT_MAX_PNL_FACTOR_FOR_SHORT_WITHDRAWAL, "DEFAULT_MAX_PNL_FACTOR_FOR_SHORT_WITHDRAWAL", BY_NAME),
+        K::MaxPnlFactorForLongTrader => (k::DEFAULT_MAX_PNL_FACTOR_FOR_LONG_TRADER, "DEFAULT_MAX_PNL_FACTOR_FOR_LONG_TRADER", BY_NAME),
+        K::MaxPnlFactorForShortTrader => (k::DEFAULT_MAX_PNL_FACTOR_FOR_SHORT_TRADER, "DEFAULT_MAX_PNL_FACTOR_FOR_SHORT_TRADER", BY_NAME),
+        K::MaxPnlFactorForLongAdl => (k::DEFAULT_MAX_PNL_FACTOR_FOR_LONG_ADL, "DEFAULT_MAX_PNL_FACTOR_FOR_LONG_ADL", BY_NAME),
+        K::MaxPnlFactorForShortAdl => (k::DEFAULT_MAX_PNL_FACTOR_FOR_SHORT_ADL, "DEFAULT_MAX_PNL_FACTOR_FOR_SHORT_ADL", BY_NAME),
+        K::MinPnlFactorAfterLongAdl => (k::DEFAULT_MIN_PNL_FACTOR_AFTER_LONG_ADL, "DEFAULT_MIN_PNL_FACTOR_AFTER_LONG_ADL", BY_NAME),
+        K::MinPnlFactorAfterShortAdl => (k::DEFAULT_MIN_PNL_FACTOR_AFTER_SHORT_ADL, "DEFAULT_MIN_PNL_FACTOR_AFTER_SHORT_ADL", BY_NAME),
+        K::MaxPoolAmountForLongToken => (k::DEFAULT_MAX_POOL_AMOUNT_FOR_LONG_TOKEN, "DEFAULT_MAX_POOL_AMOUNT_FOR_LONG_TOKEN", BY_NAME),
+        K::MaxPoolAmountForShortToken => (k::DEFAULT_MAX_POOL_AMOUNT_FOR_SHORT_TOKEN, "DEFAULT_MAX_POOL_AMOUNT_FOR_SHORT_TOKEN", BY_NAME),
+        K::MaxPoolValueForDepositForLongToken => (
+            k::DEFAULT_MAX_POOL_VALUE_FOR_DEPOSIT_LONG_TOKEN,
+            "DEFAULT_MAX_POOL_VALUE_FOR_DEPOSIT_LONG_TOKEN",
+            "doc comment \"max pool value for deposit for long token\"",
+        ),
+        K::MaxPoolValueForDepositForShortToken => (
+            k::DEFAULT_MAX_POOL_VALUE_FOR_DEPOSIT_SHORT_TOKEN,
+            "DEFAULT_MAX_POOL_VALUE_FOR_DEPOSIT_SHORT_TOKEN",
+            "doc comment \"max pool value for deposit for short token\"",
+        ),
+        K::MaxOpenInterestForLong => (k::DEFAULT_MAX_OPEN_INTEREST_FOR_LONG, "DEFAULT_MAX_OPEN_INTEREST_FOR_LONG", BY_NAME),
+        K::MaxOpenInterestForShort => (k::DEFAULT_MAX_OPEN_INTEREST_FOR_SHORT, "DEFAULT_MAX_OPEN_INTEREST_FOR_SHORT", BY_NAME),
+        K::MinTokensForFirstDeposit => (k::DEFAULT_MIN_TOKENS_FOR_FIRST_DEPOSIT, "DEFAULT_MIN_TOKENS_FOR_FIRST_DEPOSIT", BY_NAME),
+        K::MinCollateralFactorForLiquidation => (k::DEFAULT_MIN_COLLATERAL_FACTOR_FOR_LIQUIDATION, "DEFAULT_MIN_COLLATERAL_FACTOR_FOR_LIQUIDATION", BY_NAME),
+        K::MarketClosedMinCollateralFactorForLiquidation => (k::DEFAULT_MIN_COLLATERAL_FACTOR_FOR_LIQUIDATION, "DEFAULT_MIN_COLLATERAL_FACTOR_FOR_LIQUIDATION", CLOSED),
+        // Side-less market-closed settings: the long and the short constant of the same setting must
+        // agree for the association to be unambiguous; otherwise the key is uncovered.
+        K::MarketClosedBorrowingFeeBaseFactor => {
+            if k::DEFAULT_BORROWING_FEE_BASE_FACTOR_FOR_LONG != k::DEFAULT_BORROWING_FEE_BASE_FACTOR_FOR_SHORT {
+                return None;
+            }
+            (k::DEFAULT_BORROWING_FEE_BASE_FACTOR_FOR_LONG, "DEFAULT_BORROWING_FEE_BASE_FACTOR_FOR_{LONG,SHORT}", CLOSED)
+        }
+        K::MarketClosedBorrowingFeeAboveOptimalUsageFactor => {
+            if k::DEFAULT_BORROWING_FEE_ABOVE_OPTIMAL_USAGE_FACTOR_FOR_LONG != k::DEFAULT_BORROWING_FEE_ABOVE_OPTIMAL_USAGE_FACTOR_FOR_SHORT {
+                return None;
+            }
+            (
+                k::DEFAULT_BORROWING_FEE_ABOVE_OPTIMAL_USAGE_FACTOR_FOR_LONG,
+                "DEFAULT_BORROWING_FEE_ABOVE_OPTIMAL_USAGE_FACTOR_FOR_{LONG,SHORT}",
+                CLOSED,
+            )
+        }
+        _ => return None,
+    })
+}
+
+/// Documented default of a config flag (`None`: no documented constant → uncovered).
+fn documented_flag_default(flag: MarketConfigFlag) -> Option<(bool, &'static str)> {
+    use MarketConfigFlag as F;
+    Some(match flag {
+        F::SkipBorrowingFeeForSmallerSide => (k::DEFAULT_SKIP_BORROWING_FEE_FOR_SMALLER_SIDE, "DEFAULT_SKIP_BORROWING_FEE_FOR_SMALLER_SIDE"),
+        F::IgnoreOpenInterestForUsageFactor => (k::DEFAULT_IGNORE_OPEN_INTEREST_FOR_USAGE_FACTOR, "DEFAULT_IGNORE_OPEN_INTEREST_FOR_USAGE_FACTOR"),
+        F::MarketClosedSkipBorrowingFeeForSmallerSide => (
+            k::DEFAULT_SKIP_BORROWING_FEE_FOR_SMALLER_SIDE,
+            "DEFAULT_SKIP_BORROWING_FEE_FOR_SMALLER_SIDE (setting without the `market closed` qualifier)",
+        ),
+        // `EnableMarketClosedParams` has no documented default constant.
+        _ => return None,
+    })
+}
+
+/// Pool kinds the property names as "always impure": the (position) impact pool, the borrowing-factor
+/// pool and the total-borrowing pool.
+fn always_impure(kind: PoolKind) -> bool {
+    matches!(kind, PoolKind::PositionImpact | PoolKind::BorrowingFactor | PoolKind::TotalBorrowing)
+}
+
+struct Case<'a> {
+    path: &'a str,
+    long: Pubkey,
+    short: Pubkey,
+    index: Pubkey,
+    name: &'a str,
+    enable: bool,
+    now: i64,
+    shard: u64,
+    case: u64,
+}
+
+fn check_market(m: &mut Monitor, mk: &Market, c: &Case) {
+    let pure = c.long == c.short;
+    let ctx = |extra: vcommon::serde_json::Value| {
+        json!({
+            "path": c.path, "shard": c.shard, "case": c.case, "pure_market": pure, "name": c.name, "enable": c.enable,
+            "unix_timestamp": c.now, "index_token": c.index.to_string(), "long_token": c.long.to_string(),
+            "short_token": c.short.to_string(), "detail": extra,
+        })
+    };
+    m.count(&format!("markets_{}_{}", c.path, if pure { "pure" } else { "impure" }));
+
+    // --- config keys
+    for key in MarketConfigKey::iter() {
+        let name = key.to_string();
+        let Some((want, cname, how)) = documented_default(key) else {
+            m.count("key_checks_skipped_uncovered");
+            continue;
+        };
+        m.eval();
+        m.count("key_checks");
+        m.nontrivial(format!("key:{}:{}:{}", c.path, pure, name).as_bytes());
+        match mk.get_config_by_key(key) {
+            Some(got) if *got == want => {}
+            Some(got) => {
+                let mut d = json!({
+                    "key": name, "observed": got.to_string(), "documented_constant": cname,
+                    "documented_value": want.to_string(), "constant_chosen_by": how,
+                });
+                if matches!(key, MarketConfigKey::ReserveFactor) {
+                    d["DEFAULT_RESERVE_FACTOR"] = json!(k::DEFAULT_RESERVE_FACTOR.to_string());
+                    d["DEFAULT_RECEIVER_FACTOR"] = json!(k::DEFAULT_RECEIVER_FACTOR.to_string());
+                }
+                m.violation(&format!("C17:default:{name}"), ctx(d));
+            }
+            None => m.violation(
+                &format!("C17:default:{name}"),
+                ctx(json!({"key": name, "observed": "no value stored for this key", "documented_constant": cname})),
+            ),
+        }
+    }
+
+    // --- config flags
+    for flag in MarketConfigFlag::iter() {
+        let name = flag.to_string();
+        let got = mk.get_config_flag_by_key(flag);
+        let Some((want, cname)) = documented_flag_default(flag) else {
+            m.count("flag_checks_skipped_uncovered");
+            m.count(&format!("uncovered_flag_{name}_observed_{got}"));
+            continue;
+        };
+        m.eval();
+        m.count("flag_checks");
+        m.nontrivial(format!("flag:{}:{}:{}", c.path, pure, name).as_bytes());
+        if got != want {
+            m.violation(
+                &format!("C17:default_flag:{name}"),
+                ctx(json!({"flag": name, "observed": got, "documented_constant": cname, "documented_value": want})),
+            );
+        }
+    }
+
+    // --- the market's own purity flag
+    m.eval();
+    if mk.is_pure() != pure {
+        m.violation("C17:market_flag:pure", ctx(json!({"observed": mk.is_pure(), "expected": pure})));
+    }
+    if mk.is_enabled() == c.enable {
+        m.count("enabled_flag_as_requested");
+    } else {
+        m.count("enabled_flag_differs_from_request");
+    }
+
+    // --- pools
+    for kind in PoolKind::iter() {
+        let kname = kind.to_string();
+        m.eval();
+        m.count("pool_checks");
+        m.nontrivial(format!("pool:{}:{}:{}", c.path, pure, kname).as_bytes());
+        let Some(pool) = mk.pool(kind) else {
+            m.violation(&format!("C17:pool_missing:{kname}"), ctx(json!({"pool": kname})));
+            continue;
+        };
+        let want_pure = if always_impure(kind) { false } else { pure };
+        if always_impure(kind) && pure {
+            m.count("always_impure_pools_checked_in_pure_market");
+        }
+        // (1) stored marker, (2) behaviour: a short-side delta lands on the shared amount iff pure.
+        let raw = bytemuck::bytes_of(&pool);
+        let raw_pure = raw[0] != 0;
+        let beh = pool.checked_apply_delta(Delta::new(None, Some(&3i128))).ok().and_then(|p| {
+            let (l, s) = (p.long_amount().ok()?, p.short_amount().ok()?);
+            match (l, s) {
+                (2, 1) => Some(true),
+                (0, 3) => Some(false),
+                _ => None,
+            }
+        });
+        if raw_pure != want_pure || beh != Some(want_pure) {
+            m.violation(
+                &format!("C17:pool_purity:{kname}"),
+                ctx(json!({"pool": kname, "expected_pure": want_pure, "stored_marker_pure": raw_pure,
+                    "behaves_pure": beh.map(|b| b.to_string()).unwrap_or("undetermined".into())})),
+            );
+        }
+        let (l, s) = (pool.long_amount(), pool.short_amount());
+        let raw_amounts_zero = raw[16..48].iter().all(|b| *b == 0);
+        if !matches!((&l, &s), (Ok(0), Ok(0))) || !raw_amounts_zero {
+            m.violation(
+                &format!("C17:pool_amount:{kname}"),
+                ctx(json!({"pool": kname, "long_amount": format!("{l:?}"), "short_amount": format!("{s:?}"),
+                    "stored_amount_bytes_zero": raw_amounts_zero})),
+            );
+        }
+    }
+    if m.wants_sample() {
+        m.sample(json!({
+            "path": c.path, "pure_market": pure, "name": c.name, "enable": c.enable,
+            "reserve_factor": mk.get_config_by_key(MarketConfigKey::ReserveFactor).map(|v| v.to_string()),
+            "swap_impact_exponent": mk.get_config_by_key(MarketConfigKey::SwapImpactExponent).map(|v| v.to_string()),
+            "primary_pool_pure_marker": mk.pool(PoolKind::Primary).map(|p| bytemuck::bytes_of(&p)[0]),
+            "position_impact_pool_pure_marker": mk.pool(PoolKind::PositionImpact).map(|p| bytemuck::bytes_of(&p)[0]),
+        }));
+    }
+}
+
+fn rand_name(rng: &mut Rng) -> String {
+    let n = rng.range(0, 40) as usize;
+    const A: &[u8] = b"ABCDEFGHIJKLMNOPQRSTUVWXYZabcdefghijklmnopqrstuvwxyz0123456789/[]- _.";
+    (0..n).map(|_| *rng.pick(A) as char).collect()
+}
+
+/// Create vaults if needed and send `initialize_market`; returns the market address.
+pub(crate) fn create_market(w: &mut World, it: usize, lt: usize, st: usize, name: &str, enable: bool) -> Result<Pubkey, String> {
+    let (keeper, store, token_map) = (w.keeper, w.store, w.token_map);
+    let (im, lm, sm) = (w.tokens[it].mint, w.tokens[lt].mint, w.tokens[st].mint);
+    for mint in [lm, sm] {
+        let vault = w.vault(&mint);
+        if w.svm.get(&vault).is_none() {
+            w.send(
+                &[six(
+                    sa::InitializeMarketVault {
+                        authority: keeper,
+                        store,
+                        mint,
+                        vault,
+                        system_program: system_program::ID,
+                        token_program: spl_token::ID,
+                    },
+                    si::InitializeMarketVault {},
+                )],
+                &[keeper],
+            )
+            .map_err(|(e, _)| format!("initialize_market_vault: {e:?}"))?;
+        }
+    }
+    let market_token = world::pda::find_market_token_address(&store, &im, &lm, &sm, &STORE_PID).0;
+    let market = world::pda::find_market_address(&store, &market_token, &STORE_PID).0;
+    w.send(
+        &[six(
+            sa::InitializeMarket {
+                authority: keeper,
+                store,
+                market_token_mint: market_token,
+                long_token_mint: lm,
+                short_token_mint: sm,
+                market,
+                token_map,
+                long_token_vault: w.vault(&lm),
+                short_token_vault: w.vault(&sm),
+                system_program: system_program::ID,
+                token_program: spl_token::ID,
+            },
+            si::InitializeMarket { index_token_mint: im, name: name.to_string(), enable },
+        )],
+        &[keeper],
+    )
+    .map_err(|(e, _)| format!("initialize_market: {e:?}"))?;
+    Ok(market)
+}
+
+pub fn run(args: &Args) -> Option<i32> {
+    let mut mon = Monitor::new(
+        args,
+        "cases: markets created by the real initialize_market instruction (random index/long/short token triples, \
+         names, enable flag, creation time; some after another market received a deposit) and by Market::default()+init() \
+         inside the runtime context; every MarketConfigKey / MarketConfigFlag of the EnumIter and every PoolKind is \
+         compared with a hand-written table of documented DEFAULT_* constants chosen by name. non-trivial: every \
+         (key|flag|pool kind) check; distinct = distinct (creation path, pure/impure, key|flag|pool kind)",
+    );
+    mon.assume("market-closed variants of a setting have no constant of their own: they are compared with the documented default of the same setting without the `market closed` qualifier (side-less ones only because the long and short constants agree)");
+    mon.assume("`the impact pool` in the property is the position impact pool (Pools::init documents exactly position impact, borrowing factor and total borrowing as `must be impure`)");
+    mon.assume("MarketConfigFlag::EnableMarketClosedParams has no documented default constant: observed, not asserted");
+
+    // Coverage of the table itself (static).
+    let mut uncovered_keys = vec![];
+    let mut covered = 0u64;
+    for key in MarketConfigKey::iter() {
+        match documented_default(key) {
+            Some(_) => covered += 1,
+            None => uncovered_keys.push(key.to_string()),
+        }
+    }
+    let uncovered_flags: Vec<String> = MarketConfigFlag::iter().filter(|f| documented_flag_default(*f).is_none()).map(|f| f.to_string()).collect();
+    mon.add("config_keys_in_enum", covered + uncovered_keys.len() as u64);
+    mon.add("config_keys_with_documented_constant", covered);
+    mon.add("config_keys_uncovered", uncovered_keys.len() as u64);
+    mon.add("config_flags_in_enum", MarketConfigFlag::iter().count() as u64);
+    mon.add("config_flags_uncovered", uncovered_flags.len() as u64);
+    mon.set_extra("uncovered_config_keys", json!(uncovered_keys));
+    mon.set_extra("uncovered_config_flags", json!(uncovered_flags));
+    mon.set_extra(
+        "constants",
+        json!({"DEFAULT_RESERVE_FACTOR": k::DEFAULT_RESERVE_FACTOR.to_string(), "DEFAULT_RECEIVER_FACTOR": k::DEFAULT_RECEIVER_FACTOR.to_string()}),
+    );
+
+    let quiet = hostsvm::QuietStdout::new();
+    let shards = args.scale(1024, 16384);
+    let per_shard = args.scale(10, 14);
+    let seed = args.seed;
+    run_shards(&mut mon, args.threads, shards, |shard, m| {
+        let mut rng = Rng::derive(seed, shard, 17);
+        let boot = vcommon::monitor::guard(|| {
+            let mut w = World::bootstrap_store();
+            w.bootstrap_oracle();
+            // Tokens: one synthetic (index only) and 3–4 real ones with different decimals.
+            w.add_token("BTC", 8, 2, true);
+            w.add_token("SOL", 9, 4, false);
+            w.add_token("USDC", 6, 6, false);
+            w.add_token("WETH", 8, 3, false);
+            w.add_token("BONK", 5, 9, false);
+            w
+        });
+        let mut w = match boot {
+            Ok(w) => w,
+            Err(e) => {
+                m.inconclusive(&format!("bootstrap failed in shard {shard}: {e}"));
+                return;
+            }
+        };
+        let real: Vec<usize> = (0..w.tokens.len()).filter(|i| !w.tokens[*i].synthetic).collect();
+        let mut used = std::collections::BTreeSet::new();
+        let mut funded: Option<usize> = None;
+        for case in 0..per_shard {
+            // Pick an unused triple; pure with probability ~ 2/5.
+            let mut triple = None;
+            for _ in 0..64 {
+                let it = rng.below(w.tokens.len() as u64) as usize;
+                let lt = *rng.pick(&real);
+                let st = if rng.chance(2, 5) { lt } else { *rng.pick(&real) };
+                if used.insert((it, lt, st)) {
+                    triple = Some((it, lt, st));
+                    break;
+                }
+            }
+            let Some((it, lt, st)) = triple else { break };
+            if rng.chance(1, 2) {
+                w.svm.warp(rng.range(1, 100_000) as i64);
+            }
+            // Occasionally make another market non-default first (deposit), so that a fresh market
+            // is observed next to used ones.
+            if funded.is_none() && !w.markets.is_empty() && rng.chance(1, 3) {
+                let mi = 0usize;
+                let r = vcommon::monitor::guard(|| {
+                    let e18 = 1_000_000_000_000_000_000u128;
+                    let prices = [60_000 * e18, 150 * e18, e18, 3_000 * e18, e18 / 50_000];
+                    for t in 0..w.tokens.len() {
+                        let p = prices[t % prices.len()];
+                        let _ = w.set_price(t, p, p, p);
+                    }
+                    let alice = w.add_user(&format!("alice{shard}"));
+                    let mk = w.markets[mi].clone();
+                    let (lm, sm) = (w.tokens[mk.long].mint, w.tokens[mk.short].mint);
+                    token::fund_ata(&mut w.svm, &alice, &lm, 1_000_000_000_000);
+                    if sm != lm {
+                        token::fund_ata(&mut w.svm, &alice, &sm, 1_000_000_000_000);
+                    }
+                    let d = w.create_deposit(alice, mi, 1_000_000_000, if sm != lm { 1_000_000_000 } else { 0 }, None, None, &[], &[], 0);
+                    match d {
+                        Ok(d) => w.execute_deposit(d, false).map(|_| ()).map_err(|(e, _)| format!("execute_deposit: {e:?}")),
+                        Err((e, _)) => Err(format!("create_deposit: {e:?}")),
+                    }
+                });
+                match r {
+                    Ok(Ok(())) => {
+                        funded = Some(mi);
+                        m.count("other_market_funded_before_creation");
+                    }
+                    Ok(Err(e)) => m.count(&format!("funding_other_market_failed(ignored)[{}]", e.chars().take(60).collect::<String>())),
+                    Err(e) => m.count(&format!("funding_other_market_aborted(ignored)[{}]", e.chars().take(60).collect::<String>())),
+                }
+            }
+            let name = rand_name(&mut rng);
+            let enable = rng.chance(3, 4);
+            let now = w.svm.clock.unix_timestamp;
+            let (im, lm, sm) = (w.tokens[it].mint, w.tokens[lt].mint, w.tokens[st].mint);
+            match create_market(&mut w, it, lt, st, &name, enable) {
+                Ok(market) => {
+                    // Remember it as a World market (for the funding step above).
+                    let market_token = world::pda::find_market_token_address(&w.store, &im, &lm, &sm, &STORE_PID).0;
+                    let vault = w.vault(&market_token);
+                    let (keeper, store) = (w.keeper, w.store);
+                    let _ = w.send(
+                        &[six(
+                            sa::InitializeMarketVault {
+                                authority: keeper,
+                                store,
+                                mint: market_token,
+                                vault,
+                                system_program: system_program::ID,
+                                token_program: spl_token::ID,
+                            },
+                            si::InitializeMarketVault {},
+                        )],
+                        &[keeper],
+                    );
+                    match load::<Market>(&w.svm, &market) {
+                        Some(mk) => {
+                            let c = Case { path: "instruction", long: lm, short: sm, index: im, name: &name, enable, now, shard, case };
+                            check_market(m, &mk, &c);
+                        }
+                        None => m.inconclusive("market account not readable after a successful initialize_market"),
+                    }
+                    if enable {
+                        w.markets.push(world::MarketInfo { name: name.clone(), market_token, market, index: it, long: lt, short: st });
+                    }
+                }
+                Err(e) => {
+                    m.count("initialize_market_failed");
+                    m.inconclusive(&format!("initialize_market failed (harness): {e}"));
+                }
+            }
+
+            // Direct path, same triple shape but arbitrary keys, inside the runtime (stubbed clock).
+            let (dl, ds) = {
+                let l = key(&format!("d-long-{shard}-{case}"));
+                (l, if lm == sm { l } else { key(&format!("d-short-{shard}-{case}")) })
+            };
+            let di = key(&format!("d-index-{shard}-{case}"));
+            let dmt = key(&format!("d-mt-{shard}-{case}"));
+            let store = w.store;
+            let bump = rng.below(256) as u8;
+            let r = in_runtime(&mut w.svm, || {
+                let mut mk = Box::new(Market::default());
+                mk.init(bump, store, &name, dmt, di, dl, ds, enable).map(|_| mk).map_err(|e| format!("{e:?}"))
+            });
+            match r {
+                Ok(Ok(mk)) => {
+                    let c = Case { path: "direct", long: dl, short: ds, index: di, name: &name, enable, now, shard, case };
+                    check_market(m, &mk, &c);
+                }
+                Ok(Err(e)) => {
+                    m.count("direct_init_returned_err");
+                    m.inconclusive(&format!("Market::init returned an error for an ordinary name: {e}"));
+                }
+                Err(e) => {
+                    m.count("direct_init_aborted");
+                    m.inconclusive(&format!("direct Market::init aborted: {e}"));
+                }
+            }
+        }
+    });
+    drop(quiet);
+    let _ = UNIT;
+    for c in ["markets_instruction_pure", "markets_instruction_impure", "markets_direct_pure", "markets_direct_impure"] {
+        mon.require(c, args.scale(20, 400));
+    }
+    mon.require("key_checks", 1000);
+    mon.require("flag_checks", 100);
+    mon.require("pool_checks", 1000);
+    mon.require("always_impure_pools_checked_in_pure_market", 100);
+    mon.require("config_keys_with_documented_constant", 60);
+    Some(mon.finish())
 }
